@@ -29,3 +29,28 @@ void h_named_attribute(void)
     if (in_level < 3) __CPROVER_assert(r == &var[in_level], "C04 an attribute declared by the entity or by any of its ancestors is found by name");
     else __CPROVER_assert(r == 0, "C04 a name that no ancestor declares is not found");
 }
+
+/* ---- VARfind (schema.c) + ENTITYfind_inherited_attribute (entity.c): the contract used as a callee model by unit resolve_c/h_inverse:
+ *      strict look-up of an attribute name in an entity finds it iff the entity itself or one of its ancestors declares it;
+ *      an attribute of a subtype is never returned ---- */
+#include "varfind_extract.inc"
+static int g_decl_level; static struct Dictionary_ *g_tab[3]; static struct Variable_ g_var[3];
+char DICT_type;
+void *DICTlookup(Dictionary d, char *name) { (void)name; for (int k = 0; k < 3; k++) if (d == (Dictionary)g_tab[k] && k == g_decl_level) { DICT_type = OBJ_VARIABLE; return &g_var[k]; } return 0; }
+void h_VARfind(void)
+{
+    IN(int, in_level);          /* who declares "x": 0 = the subtype B only, 1 = the entity E itself, 2 = its supertype P, 3 = nobody */
+    static struct Scope_ en[3]; static struct Entity_ e3[3]; static struct Linked_List_ sup[3], sub[3]; static struct Link_ pm[3], p1[3], bm[3], b1[3]; static long tabs[3];
+    __CPROVER_assume(in_level >= 0 && in_level <= 3);
+    for (int k = 0; k < 3; k++) {
+        en[k].u.entity = &e3[k]; en[k].type = OBJ_ENTITY; en[k].search_id = 0; g_tab[k] = (struct Dictionary_ *)&tabs[k]; en[k].symbol_table = (Dictionary)g_tab[k];
+        sup[k].mark = &pm[k]; sub[k].mark = &bm[k]; e3[k].supertypes = &sup[k]; e3[k].subtypes = &sub[k];
+        /* supertype links: B(0) -> E(1) -> P(2); subtype links the other way round */
+        if (k < 2) { pm[k].next = &p1[k]; pm[k].prev = &p1[k]; p1[k].next = &pm[k]; p1[k].prev = &pm[k]; p1[k].data = &en[k + 1]; } else { pm[k].next = &pm[k]; pm[k].prev = &pm[k]; }
+        if (k > 0) { bm[k].next = &b1[k]; bm[k].prev = &b1[k]; b1[k].next = &bm[k]; b1[k].prev = &bm[k]; b1[k].data = &en[k - 1]; } else { bm[k].next = &bm[k]; bm[k].prev = &bm[k]; }
+    }
+    g_decl_level = in_level; __SCOPE_search_id = 7;
+    Variable r = VARfind(&en[1], nx, 1);
+    if (in_level == 1 || in_level == 2) __CPROVER_assert(r == &g_var[in_level], "C04 the strict attribute look-up finds an attribute declared by the entity or inherited from a supertype");
+    else __CPROVER_assert(r == 0, "C04 the strict attribute look-up never returns an attribute that only a subtype declares, nor an undeclared name");
+}
